@@ -66,13 +66,15 @@ var c06Contract = []chainReq{
 	{"every enum is a named object", "AnonymousEnumToExplicitType", []string{"DisjunctionOfConstantsToEnum"}, []string{"golang", "java", "php"}},
 	{"every struct (outside allOf) is a named object", "AnonymousStructsToNamed", nil, []string{"golang", "java", "php", "python"}},
 	{"every non-required field is nullable", "NotRequiredFieldAsNullableType", []string{"AnonymousStructsToNamed"}, []string{"golang", "java", "php", "python"}},
-	{"no two-branch `T | null` union remains", "DisjunctionWithNullToOptional", []string{"FlattenDisjunctions"}, []string{"golang", "java", "php", "python"}},
+	// (InlineObjectsWithTypes: inlining a named null — `Nothing: null`, `v: string | Nothing` — creates `T | null` as flattening does)
+	{"no two-branch `T | null` union remains", "DisjunctionWithNullToOptional", []string{"FlattenDisjunctions", "InlineObjectsWithTypes"}, []string{"golang", "java", "php", "python"}},
 	{"enum member names are prefixed", "PrefixEnumValues", []string{"AnonymousEnumToExplicitType", "DisjunctionOfConstantsToEnum"}, []string{"golang"}},
 	{"enum member names are never purely numeric", "RenameNumericEnumValues", []string{"DisjunctionOfConstantsToEnum", "AnonymousEnumToExplicitType"}, []string{"python", "typescript", "java", "php"}},
 	{"enum member names are sanitised", "SanitizeEnumMemberNames", []string{"DisjunctionOfConstantsToEnum"}, []string{"php"}},
 }
 
 func checkC06(ctx *Ctx, r *Report) {
+	defer c06SecondHunt(ctx, r)
 	r.Explanation = "Decided from source: (1) chain contract — each Language.CompilerPasses() literal is resolved to its ordered list of pass types and checked against a frozen table: the pass establishing each clause of the normal form is present for every language the clause is stated for, and comes after every pass of the same chain that creates the construct it removes (or the objects it must see); (2) reach — each establishing pass reaches nested occurrences: visitor-based passes re-enter the visitor on the children of the node in every callback that replaces the default traversal (or return a fresh leaf), and hand-rolled recursions dispatch over every container kind in which the construct can nest and call themselves on that kind's child positions; objects created by an establishing pass are themselves processed."
 	r.NotCovered = "that a pass's rewrite is right (only that it is applied everywhere); interactions between passes beyond the table; identifier rules of the target languages beyond the presence/order of the renaming pass."
 	r.Exhaustive = true
@@ -1480,4 +1482,77 @@ func c06EnumMemberNamesVerbatim(ctx *Ctx, r *Report) {
 	})
 	r.Count("enum members copied by non-renaming passes", n)
 	r.Floor("enum members copied by non-renaming passes", 1)
+}
+
+
+// c06SecondHunt — (a) the passes that walk types by hand (a `processType` method dispatching on the kind, instead of the
+// shared Visitor) must descend into every container kind: array, map, disjunction, struct *and* intersection; the
+// Visitor does. A walker without the intersection case leaves what an allOf branch holds untouched. (b) a sanitised
+// enum member name starts with a letter: sanitizeEnumMember tests the first character for being a digit (`1m`, `5m`
+// are not numbers, so RenameNumericEnumValues leaves them alone).
+func c06SecondHunt(ctx *Ctx, r *Report) {
+	p := ctx.Pkg("internal/ast/compiler")
+	if p == nil {
+		return
+	}
+	info := p.TypesInfo
+	n := 0
+	for _, file := range p.Syntax {
+		for _, d := range file.Decls {
+			fd, ok := d.(*ast.FuncDecl)
+			if !ok || fd.Body == nil || fd.Recv == nil || fd.Name.Name != "processType" {
+				continue
+			}
+			fobj, _ := info.Defs[fd.Name].(*types.Func)
+			tests := map[string]bool{}
+			ast.Inspect(fd.Body, func(m ast.Node) bool {
+				if c, ok := m.(*ast.CallExpr); ok {
+					if f := callee(info, c); f != nil {
+						switch f.Name() {
+						case "IsArray", "IsMap", "IsDisjunction", "IsStruct", "IsIntersection":
+							tests[f.Name()] = true
+						}
+					}
+				}
+				return true
+			})
+			if len(tests) < 2 {
+				continue
+			}
+			n++
+			var missing []string
+			for _, k := range []string{"IsArray", "IsMap", "IsDisjunction", "IsStruct", "IsIntersection"} {
+				if !tests[k] {
+					missing = append(missing, k)
+				}
+			}
+			r.Check(len(missing) == 0, "traverse/hand-written-walker-total", ctx.FuncName(fobj)+" descends into every container kind", fd.Pos(), "array, map, disjunction, struct and intersection are all handled",
+				fmt.Sprintf("%s dispatches on the kind of a type by hand and has no case for %v: what such a type holds is never visited — a struct nested in a field of an allOf branch stays anonymous (Java: `public Object opts`)", ctx.FuncName(fobj), missing))
+		}
+	}
+	r.Count("hand-written type walkers in the compiler passes", n)
+	r.Floor("hand-written type walkers in the compiler passes", 2)
+
+	if fn := ctx.LookupMethod("internal/ast/compiler", "SanitizeEnumMemberNames", "sanitizeEnumMember"); fn == nil {
+		r.Undecided("anchor lost: SanitizeEnumMemberNames.sanitizeEnumMember")
+	} else {
+		fd, _ := ctx.DeclOf(fn)
+		digit := false
+		ast.Inspect(fd.Body, func(m ast.Node) bool {
+			switch x := m.(type) {
+			case *ast.BasicLit:
+				if x.Kind == token.CHAR && (x.Value == "'0'" || x.Value == "'9'") {
+					digit = true
+				}
+			case *ast.CallExpr:
+				if f := callee(info, x); f != nil && (f.Name() == "IsDigit" || f.Name() == "IsNumber") {
+					digit = true
+				}
+			}
+			return true
+		})
+		r.Count("sanitising rules for enum member names", 1)
+		r.Check(digit, "normalform/sanitised-name-starts-with-letter", "SanitizeEnumMemberNames handles a leading digit", fd.Pos(), "a name starting with a digit is prefixed",
+			"sanitizeEnumMember only knows the empty name and a leading sign: `1m`, `5m`, `1h` are not numbers (RenameNumericEnumValues leaves them alone) and reach PHP as `public static function 1M()`, which does not parse")
+	}
 }
